@@ -986,7 +986,7 @@ func atMonitor(r *Rng, n int, report func(Violation)) {
 					if ds, isArr := p["decState"].([]string); isArr {
 						hh := N(M{"x": ds[0]}, "x")
 						secs := N(M{"x": ds[1]}, "x")
-						if old, had := storedBefore[hh]; had && old != secs && old < 18446744073 && secs < 18446744073 {
+						if old, had := storedBefore[hh]; had && old != secs {
 							if out["frozen"] != true {
 								viol("conflict-not-frozen", "an accepted update attesting a different timestamp for a stored height did not freeze the client")
 								return
@@ -1041,7 +1041,7 @@ func atMonitor(r *Rng, n int, report func(Violation)) {
 	}
 }
 
-// probeTimestampWrap replays the kernel-checked witness of C28.conflicting_seconds_freeze_full_false on the
+// probeTimestampWrap re-checks the witness fixed by /repo commit b1892f8 (C28.conflicting_seconds_freeze) on the
 // real code: two quorum-signed updates for one new height attesting 1 s and 1 s + 2^55 s.
 func (e *atEnv) probeTimestampWrap(r *Rng, h *atHist, history []M, report func(Violation)) {
 	height := h.latest + 1
